@@ -37,8 +37,12 @@ def wrapper(case):
                 if method == 'complex':
                     continue
                 del pts[:]
-                ns.Jacobian(f, method=method, bounds=bounds)(np.where(np.isfinite(np.broadcast_to(bounds[0], x.shape)),
-                                                                      np.maximum(x, np.broadcast_to(bounds[0], x.shape)), x))
+                try:
+                    ns.Jacobian(f, method=method, bounds=bounds)(np.where(np.isfinite(np.broadcast_to(bounds[0], x.shape)),
+                                                                          np.maximum(x, np.broadcast_to(bounds[0], x.shape)), x))
+                except Exception as e:
+                    bad.append(dict(what='a point inside the box was rejected', method=method, n=n, bounds=str(bounds)[:80], x=x.tolist(), error=repr(e)[:100]))
+                    continue
                 lb, ub = np.broadcast_to(bounds[0], x.shape), np.broadcast_to(bounds[1], x.shape)
                 if any(np.any(p < lb - 1e-15) or np.any(p > ub + 1e-15) for p in pts):
                     bad.append(dict(what='evaluation outside the box', method=method, bounds=str(bounds)[:80]))
@@ -61,6 +65,31 @@ def wrapper(case):
                 if not np.allclose(got, want(c), rtol=1e-5, atol=1e-6):
                     bad.append(dict(what='%s object re-used: call %d arguments' % (klass, len(call) - 1), method=method, extra_args=call[1:], got=np.asarray(got).tolist(),
                                     expected=np.asarray(want(c)).tolist()))
+    # the caller updates x in place between two calls of the same object (an optimisation loop): the second call is a derivative at
+    # the NEW point
+    for klass, f, dfun in (('Jacobian', lambda z: np.array([z[0] ** 2 + z[1], np.exp(0.5 * z[0]) * z[1]]),
+                            lambda z: np.array([[2 * z[0], 1.0], [0.5 * np.exp(0.5 * z[0]) * z[1], np.exp(0.5 * z[0])]])),
+                           ('Gradient', lambda z: z[0] ** 2 * z[1] + np.sin(z[1]), lambda z: np.array([2 * z[0] * z[1], z[0] ** 2 + np.cos(z[1])]))):
+        for method in ('forward', 'central', 'complex'):
+            obj = getattr(ns, klass)(f, method=method)
+            xx = np.array([0.5, 1.5])
+            obj(xx)
+            xx += np.array([0.25, -0.5])
+            got = obj(xx)
+            if not np.allclose(got, dfun(xx), rtol=1e-5, atol=1e-5):
+                bad.append(dict(what='%s object called again after x was updated in place' % klass, method=method, x=xx.tolist(), got=np.asarray(got).tolist(), expected=dfun(xx).tolist()))
+    # array bounds for every number of variables (two variables included): evaluation stays in the box, feasible points are accepted
+    for n in (1, 2, 3, 4):
+        lo = np.arange(n, dtype=float); hi = lo + 1.0 + 0.5 * np.arange(n)
+        for xs in (0.5 * (lo + hi), lo.copy(), hi.copy()):
+            for method in ('central', 'forward'):
+                seen = []
+                try:
+                    ns.Jacobian(lambda z: (seen.append(np.array(z, dtype=float)), np.cumsum(z) ** 2)[1], method=method, bounds=(lo, hi))(xs)
+                except Exception as e:
+                    bad.append(dict(what='feasible point rejected with array bounds', n=n, method=method, lower=lo.tolist(), upper=hi.tolist(), x=xs.tolist(), error=repr(e)[:100])); continue
+                if any(np.any(p < lo - 1e-15) or np.any(p > hi + 1e-15) for p in seen):
+                    bad.append(dict(what='evaluation outside the box (array bounds)', n=n, method=method, lower=lo.tolist(), upper=hi.tolist(), x=xs.tolist()))
     # Gradient of an x with several axes: variables in index order for every memory layout
     wm = np.arange(1.0, 7.0).reshape(2, 3)
     X = np.array([[0.3, -1.2, 2.0], [0.7, 1.1, -0.4]])
